@@ -107,6 +107,12 @@ CLAIMED["C08"] = dict(
    text="For generated Panel/Padding/Align/Constrain/Styled frames the child is rendered alone at the inner width and must re-appear verbatim at the right offset inside an exact rectangle with exactly the requested border and padding cells (utf-8, ascii-only and legacy-windows consoles); rules must be one line of exactly W cells, bars exactly/at most their target; Columns must show every unique token once in the documented reading order and Trees every visible label once in depth-first order behind a prefix of exactly 4 cells per level.",
    note="Only the outermost frame of a case is judged; frame style none; inner widths below the child's structural minimum are outside the domain; Align uses the child's measured maximum (C09's subject).",
    ref="5 C08")
+CLAIMED["C12"] = dict(
+   technique="model-based Hypothesis testing of task-op histories against a sequential reference model; exhaustive (1 and 2 preemptions) and generated thread schedules run by a harness-owned deterministic scheduler; track() differential",
+   level="exploration",
+   text="Sequential: generated histories with generated monotone clocks are compared after every operation with an exact-rational reference model (completed, percentage, finished, fixed finish time, speed and time-remaining signs). Concurrent: real threads are serialised by a scheduler that can preempt at every traced line of rich/progress.py and every operation of the proxied progress lock; all single-preemption schedules of four fixed programs are enumerated in every run (pairs in the thorough tier) and generated programs/schedules extend the search; final counters must equal the sum of the advances and no estimate may be negative. track() is run over lists, ranges and generators with and without the helper thread.",
+   note="Exact amounts (integers, quarters); Progress(disable=True) for accounting; C-level calls are atomic under the GIL; estimates are read under the progress lock as the display does.",
+   ref="5 C12")
 NOT_YET = {}
 props = [json.loads(l) for l in open(os.path.join(V, "properties.jsonl"))]
 checks = []
